@@ -20,6 +20,7 @@ import (
 	"github.com/privacybydesign/gabi/internal/verif/venv"
 	"github.com/privacybydesign/gabi/internal/verif/vkit"
 	"github.com/privacybydesign/gabi/internal/verif/vsched"
+	"github.com/privacybydesign/gabi/revocation"
 )
 
 // concProof is what a proving thread leaves behind.
@@ -32,6 +33,7 @@ type concProof struct {
 type concHarness struct {
 	name    string
 	prepare bool     // cache prepared before the threads start
+	stale   bool     // ... and afterwards the accumulator moved on and the witness was updated
 	bodies  []string // per thread: sequence of ops, e.g. "prove", "prepare", "prove;prepare"
 }
 
@@ -42,10 +44,19 @@ func concScenario(k *vfKey, h concHarness, env *venv.Env, seedLabel string, resu
 	// the credential is minted once per key (prime search for the witness is the expensive part)
 	// and copied for every execution, so that no state (cache channel, witness) is shared
 	base := concBaseCred(k)
+	if h.stale {
+		base = concStaleBase(k).cred
+	}
 	w := *base.NonRevocationWitness
 	cred := &Credential{Signature: base.Signature, Pk: base.Pk, Attributes: base.Attributes, NonRevocationWitness: &w}
 	if h.prepare {
 		if err := cred.NonrevPrepareCache(); err != nil {
+			panic(err)
+		}
+	}
+	if h.stale {
+		// the cached commitment is now one accumulator behind the witness
+		if err := cred.NonRevocationWitness.Update(k.Pk, concStaleBase(k).update); err != nil {
 			panic(err)
 		}
 	}
@@ -87,6 +98,27 @@ func concScenario(k *vfKey, h concHarness, env *venv.Env, seedLabel string, resu
 
 var concBase = map[string]*Credential{}
 
+type concStale struct {
+	cred   *Credential
+	update *revocation.Update
+}
+
+var concStaleCache = map[string]*concStale{}
+
+// concStaleBase: a credential issued at accumulator 0 of its own issuer world and the update message
+// to accumulator 1 (another credential was revoked in between).
+func concStaleBase(k *vfKey) *concStale {
+	if c, ok := concStaleCache[k.Name]; ok {
+		return c
+	}
+	w := c11NewWorld(k)
+	cred := w.issue(vfTag("conc-secret"), []*big.Int{vfTag("conc-a1"), vfTag("conc-a2")}, 5)
+	w.revoke(vfRevPrime(7))
+	c := &concStale{cred: cred, update: w.update(1)}
+	concStaleCache[k.Name] = c
+	return c
+}
+
 func concBaseCred(k *vfKey) *Credential {
 	if c, ok := concBase[k.Name]; ok {
 		return c
@@ -118,6 +150,9 @@ func concJudge(k *vfKey, cred *Credential, results []concProof) (string, string)
 		np := r.p.NonRevocationProof
 		if np == nil {
 			return "nonrev-part-missing", ""
+		}
+		if acc := p.NonRevocationProof.SignedAccumulator.Accumulator; acc == nil || acc.Index != cred.NonRevocationWitness.SignedAccumulator.Accumulator.Index {
+			return "proof-not-against-the-witness-accumulator", fmt.Sprintf("proof %d (thread %d) is against accumulator %v, the witness is at %d", i, r.thread, acc, cred.NonRevocationWitness.SignedAccumulator.Accumulator.Index)
 		}
 		for name, m := range map[string]map[string]int{"C_r": seenCr, "C_u": seenCu, "A": seenA} {
 			var v *big.Int
@@ -165,19 +200,21 @@ func vfShortS(s string) string {
 
 func concHarnesses() []concHarness {
 	return []concHarness{
-		{"prepare|prove|prove (cold cache)", false, []string{"prepare", "prove", "prove"}},
-		{"prove|prove (warm cache)", true, []string{"prove", "prove"}},
-		{"prepare;prepare|prove (warm cache)", true, []string{"prepare;prepare", "prove"}},
-		{"prove;prepare|prove;prepare (warm cache)", true, []string{"prove;prepare", "prove;prepare"}},
-		{"prove|prove|prove (warm cache)", true, []string{"prove", "prove", "prove"}},
-		{"prepare|prove|prove (warm cache)", true, []string{"prepare", "prove", "prove"}},
+		{"prepare|prove|prove (cold cache)", false, false, []string{"prepare", "prove", "prove"}},
+		{"prove|prove (warm cache)", true, false, []string{"prove", "prove"}},
+		{"prepare;prepare|prove (warm cache)", true, false, []string{"prepare;prepare", "prove"}},
+		{"prove;prepare|prove;prepare (warm cache)", true, false, []string{"prove;prepare", "prove;prepare"}},
+		{"prove|prove|prove (warm cache)", true, false, []string{"prove", "prove", "prove"}},
+		{"prepare|prove|prove (warm cache)", true, false, []string{"prepare", "prove", "prove"}},
+		{"prepare|prove (stale warm cache: witness one accumulator ahead)", true, true, []string{"prepare", "prove"}},
+		{"prove|prove;prepare (stale warm cache)", true, true, []string{"prove", "prove;prepare"}},
 	}
 }
 
 func concExplore(t *testing.T, prop, sub string, bound int, qb, tb time.Duration) {
 	r := vkit.Start(t, prop, sub, qb, tb)
 	defer r.Finish()
-	r.Rule = "2-3 threads on one credential (bodies from {prove(nonrev), prepare cache, prove;prepare, prepare;prepare}, cold and warm cache), every interleaving of the instrumented scheduling points (channel selects on the cache, lazy-init field accesses) with <= B preemptions; executions run to completion on the real code with seeded randomness; non-trivial = distinct schedule; oracle: every proof verifies, C_r/C_u/A never repeat, implied randomisers pairwise distinct, no deadlock/panic/leak"
+	r.Rule = "2-3 threads on one credential (bodies from {prove(nonrev), prepare cache, prove;prepare, prepare;prepare}; cold cache, warm cache, and stale warm cache = the accumulator moved on and the witness was updated after the cache was filled), every interleaving of the instrumented scheduling points (channel selects on the cache, lazy-init field accesses) with <= B preemptions; executions run to completion on the real code with seeded randomness; non-trivial = distinct schedule; oracle: every proof verifies, C_r/C_u/A never repeat, implied randomisers pairwise distinct, no deadlock/panic/leak"
 	k := vfK("toyB")
 	env := vfInstallEnv(t, prop+"/"+sub, r.Seed)
 	r.Bounds["max_preemptions"] = bound
@@ -186,9 +223,9 @@ func concExplore(t *testing.T, prop, sub string, bound int, qb, tb time.Duration
 	hs := concHarnesses()
 	if prop == "C07" && sub == "concurrent-cprng-instrumented" {
 		hs = []concHarness{
-			{"prove|prove (warm cache)", true, []string{"prove", "prove"}},
-			{"prove|prove (cold cache)", false, []string{"prove", "prove"}},
-			{"prepare|prove (warm cache)", true, []string{"prepare", "prove"}},
+			{"prove|prove (warm cache)", true, false, []string{"prove", "prove"}},
+			{"prove|prove (cold cache)", false, false, []string{"prove", "prove"}},
+			{"prepare|prove (warm cache)", true, false, []string{"prepare", "prove"}},
 		}
 		r.Assumptions = nil
 		r.Assume("the CPRNG reservation step is instrumented too in this harness")
@@ -275,7 +312,7 @@ func TestVerifC20Cred(t *testing.T) {
 func TestVerifC20RaceBodies(t *testing.T) {
 	r := vkit.Start(t, "C20", "race-pass-gabi", 200*time.Second, 900*time.Second)
 	defer r.Finish()
-	r.Rule = "free-running -race pass (detector over observed executions, not exhaustive): the same bodies as the explored harnesses with 2..16 goroutines released by a barrier, R repetitions, GOMAXPROCS in {2,4,16}; a DATA RACE report fails the binary and is reported by the runner; non-trivial = distinct (harness,goroutines,repetition)"
+	r.Rule = "free-running -race pass (detector over observed executions, not exhaustive): the same bodies as the explored harnesses (cold, warm and stale warm cache) with 2..16 goroutines released by a barrier, R repetitions, GOMAXPROCS in {2,4,16}; a DATA RACE report fails the binary and is reported by the runner; non-trivial = distinct (harness,goroutines,repetition)"
 	k := vfK("toyB")
 	pk := k.Pk
 	reps := vkit.Pick(6, 40)
@@ -285,9 +322,22 @@ func TestVerifC20RaceBodies(t *testing.T) {
 	}
 	for _, gs := range []int{2, 4, 16} {
 		for rep := 0; rep < reps; rep++ {
-			for _, cold := range []bool{true, false} {
+			for _, state := range []string{"cold", "warm", "stale"} {
+				cold := state == "cold"
 				cred := vfMintRev(k, vfTag("race-secret"), []*big.Int{vfTag("r1"), vfTag("r2")}, rep)
-				if !cold {
+				if state == "stale" {
+					// warm cache, then the accumulator moves on and the witness is updated: the cached
+					// commitment is refreshed by whoever takes it next
+					w := c11NewWorld(k)
+					cred = w.issue(vfTag("race-secret"), []*big.Int{vfTag("r1"), vfTag("r2")}, rep)
+					if err := cred.NonrevPrepareCache(); err != nil {
+						t.Fatal(err)
+					}
+					w.revoke(vfRevPrime(rep + 3))
+					if err := cred.NonRevocationWitness.Update(pk, w.update(1)); err != nil {
+						t.Fatal(err)
+					}
+				} else if !cold {
 					if err := cred.NonrevPrepareCache(); err != nil {
 						t.Fatal(err)
 					}
@@ -316,7 +366,7 @@ func TestVerifC20RaceBodies(t *testing.T) {
 				close(start)
 				wg.Wait()
 				r.Eval()
-				r.Nontrivial(fmt.Sprintf("%d|%d|%v", gs, rep, cold))
+				r.Nontrivial(fmt.Sprintf("%d|%d|%v", gs, rep, state))
 				var res []concProof
 				for g, p := range proofs {
 					if p == nil {
@@ -327,7 +377,7 @@ func TestVerifC20RaceBodies(t *testing.T) {
 				}
 				if sig, detail := concJudge(k, cred, res); sig != "" {
 					// the map-order ambiguity of the revocation attribute index is C11's finding
-					r.Violate("C20|"+sig+"|free-running", detail, map[string]any{"goroutines": gs, "cold": cold})
+					r.Violate("C20|"+sig+"|free-running", detail, map[string]any{"goroutines": gs, "cache": state})
 				}
 				// concurrent verification of one proof object's copies with one shared public key
 				if rep == 0 {
